@@ -36,6 +36,7 @@ type c07Step struct {
 	Wrap     string `json:"wrap,omitempty"`
 	Arg      string `json:"arg,omitempty"`
 	Mode     string `json:"mode,omitempty"`
+	Other    int    `json:"other,omitempty"` // second pool parser for any-pool / seq-pool
 }
 
 type c07Case struct {
@@ -75,12 +76,39 @@ func (*c07Prop) Plans(tier string) []Plan {
 	return []Plan{{Name: "consumers", Workers: 16, Runs: 4000000, MaxTime: 600e9, Size: 20}, {Name: "consumers-small", Workers: 16, Runs: 4000000, MaxTime: 300e9, Size: 7}}
 }
 
-var c07Wraps = []string{"any-x", "any-x", "any-rev", "choice", "opt", "seq-y", "seq-opt", "many", "sepby", "single", "ltrim", "rtrim", "returnsingle", "sentence", "memo"}
+var c07Wraps = []string{"any-pool", "any-pool", "seq-pool", "any-x", "any-x", "any-rev", "choice", "opt", "seq-y", "seq-opt", "many", "sepby", "single", "ltrim", "rtrim", "returnsingle", "sentence", "memo"}
 
 // leftRecTemplate returns one of the classic left-recursive shapes.
 func leftRecTemplate(r *Rand) *Grammar {
 	a, b := string(r.Pick("ab")), string(r.Pick("ab"))
-	switch r.Intn(6) {
+	switch r.Intn(7) {
+	case 6:
+		// the curtailing-set analogue of the shared multi-result parser: five simple
+		// left-recursive nonterminals L1..L5; m = Memo(Any(L1, L2, L3)) is consumed by
+		// Any(m, L4) and by Any(m, L5). Nodes are constructed from the highest index down, so
+		// L1 gets the smallest parser index and the merged sets grow in ascending order.
+		g := &Grammar{}
+		add := func(n GNode) int { g.Nodes = append(g.Nodes, n); return len(g.Nodes) - 1 }
+		root := add(GNode{Op: "any"})
+		c1 := add(GNode{Op: "any"})
+		c2 := add(GNode{Op: "any"})
+		m := add(GNode{Op: "any", Memo: true})
+		var ls [5]int
+		for i := 4; i >= 0; i-- { // L5 first: lowest node index among the L's = constructed last
+			l := add(GNode{Op: "any", Memo: true})
+			sq := add(GNode{Op: "seq"})
+			t1 := add(GNode{Op: "rune", Arg: b})
+			t2 := add(GNode{Op: "rune", Arg: a})
+			g.Nodes[sq].Kids = []int{l, t1}
+			g.Nodes[l].Kids = []int{sq, t2}
+			ls[i] = l
+		}
+		g.Nodes[m].Kids = []int{ls[0], ls[1], ls[2]}
+		g.Nodes[c1].Kids = []int{m, ls[3]}
+		g.Nodes[c2].Kids = []int{m, ls[4]}
+		g.Nodes[root].Kids = []int{c1, c2}
+		g.Root = root
+		return g
 	case 0: // P -> P b | a
 		return &Grammar{Root: 0, Nodes: []GNode{{Op: "any", Kids: []int{1, 3}, Memo: true}, {Op: "seq", Kids: []int{0, 2}}, {Op: "rune", Arg: b}, {Op: "rune", Arg: a}}}
 	case 1: // A -> B a | a ; B -> A b | b
@@ -165,6 +193,10 @@ func (*c07Prop) Gen(r *Rand, pl *Plan) Case {
 				s.Arg += string(r.Pick(alphabet))
 			}
 			s.Mode = fmt.Sprint(r.Intn(4))
+			s.Other = r.Intn(len(c.G.Nodes))
+			if len(memoNodes) > 0 && r.Chance(3, 4) {
+				s.Other = memoNodes[r.Intn(len(memoNodes))]
+			}
 		}
 		c.Steps = append(c.Steps, s)
 	}
@@ -249,6 +281,10 @@ type monitor struct {
 	// itself) handed out although they had been handed out before - a sharing channel
 	// other than the result cache
 	reused map[interface{}]string
+	// curtailing-parser sets returned next to a node: part of a memoised parser's answer,
+	// stored in the cache entry and handed to every later caller
+	cps    []data.IntSet
+	cpText []string
 }
 
 const c07Known = "C07-rtrim-readerpos"
@@ -287,7 +323,8 @@ func keyOf(n parsley.Node) kidKey {
 func shallowOf(n parsley.Node) *shallow {
 	s := &shallow{typ: fmt.Sprintf("%T", n), token: n.Token(), pos: n.Pos(), rpos: n.ReaderPos()}
 	if l, ok := n.(parsley.LiteralNode); ok {
-		s.val = fmt.Sprintf("%T:%v", l.Value(), l.Value())
+		v := l.Value() // read exactly once per snapshot: reading is an observation, too
+		s.val = fmt.Sprintf("%T:%v", v, v)
 	}
 	if nt, ok := n.(parsley.NonTerminalNode); ok {
 		for _, c := range nt.Children() {
@@ -412,6 +449,14 @@ func (m *monitor) checkAll() {
 			detail: fmt.Sprintf("%s of a %s node returned earlier (token %q, %d..%d) changed to %s while parser %q (grammar node %d) was running", field, old.typ, old.token, old.pos, old.rpos, describe(cur, field), cu.label, cu.idx)}
 		return
 	}
+	for i, cp := range m.cps {
+		if now := renderCP(cp); now != m.cpText[i] {
+			cu := m.culprit()
+			m.viol = &c07Violation{class: "frozen:curtailing-set", culprit: cu.label, field: "cp",
+				detail: fmt.Sprintf("a curtailing-parser set returned earlier next to a result read {%s} and reads {%s} now (changed while parser %q, grammar node %d, was running): the stored answer of a memoised parser was modified", m.cpText[i], now, cu.label, cu.idx)}
+			return
+		}
+	}
 	for _, nl := range m.listOrder {
 		k := listKey{&nl[0], len(nl)}
 		old := m.lists[k]
@@ -510,6 +555,10 @@ func (r recP) Parse(ctx *parsley.Context, lrc data.IntMap, pos parsley.Pos) (par
 		}
 	}
 	m.track(n)
+	if cp.Len() > 0 && len(m.cps) < 400 {
+		m.cps = append(m.cps, cp)
+		m.cpText = append(m.cpText, renderCP(cp))
+	}
 	m.checkAll()
 	m.stack = m.stack[:len(m.stack)-1]
 	m.depth--
@@ -567,6 +616,12 @@ func (s *c07Step) parser(c *c07Case, b *built, m *monitor, nullable []bool) pars
 	var p parsley.Parser
 	label := "wrap:" + s.Wrap
 	switch s.Wrap {
+	case "any-pool":
+		// two pool parsers (possibly both memoised and left-recursive: their curtailing sets
+		// are merged by the enclosing combinator)
+		p = combinator.Any(k, b.Slots[s.Other%len(b.Slots)])
+	case "seq-pool":
+		p = combinator.SeqOf(combinator.Optional(k), b.Slots[s.Other%len(b.Slots)])
 	case "any-x":
 		p = combinator.Any(k, x)
 	case "any-rev":
